@@ -234,3 +234,36 @@ class Schema:
         conds = [[r.choice(['when', 'when', 'unless']), self.texpr(('prim', 'Bool'), env, depth)] for _ in range(r.choice([1, 1, 2]))]
         # scope pins the environment so that the typing environment is the one the expressions were built for
         return ['policy', S('p'), r.choice(['permit', 'forbid']), ['is', S(env[0])], ['eq', gen.vent('Action', a)], ['is', S(env[2])], ['conds'] + conds, ['annots']]
+
+    # ---- hazards: an expression that fails at run time, reachable only through a guard the validator may (wrongly) believe dead
+    def hazard_policy(self):
+        r = self.r
+        a = r.choice(sorted(self.actions))
+        d = self.actions[a]
+        env = (r.choice(d['principals']), a, r.choice(d['resources']))
+        types = sorted(self.entities)
+        P, R = ['var', 'principal'], ['var', 'resource']
+        E = r.choice([P, P, R] + self.paths(env, ('ent', r.choice(types)), []))
+        t1 = r.choice(types)
+        t2 = r.choice(types)
+        f1 = self.texpr(('ent', t1), env, 1)
+        f2 = self.texpr(('ent', t2), env, 1)
+        cond = self.texpr(('prim', 'Bool'), env, 1)
+        F = r.choice([['if', cond, f1, f2], ['if', cond, f2, f1], ['mkset', f1, f2], f1, ['mkset', f1], ['if', cond, ['mkset', f1], ['mkset', f2]]])
+        opt = self.optional_paths(env)
+        guards = [['in', E, F], ['in', E, F], ['in', E, F], ['is', E, S(t1)], ['isIn', E, S(t1), f2], ['eq', E, f1], ['ne', E, f1],
+                  ['not', ['in', E, F]], ['in', f1, F], ['or', ['in', E, f1], ['in', E, f2]]]
+        if opt:
+            base, key, t = r.choice(opt)
+            guards.append(['has', base, S(key)])
+        G = r.choice(guards)
+        bads = [['gt', ['add', lit(gen.vstr('a')), lit(gen.vlong(1))], lit(gen.vlong(0))], ['like', lit(gen.vlong(1)), ['pat', ['w']]],
+                ['contains', lit(gen.vlong(1)), lit(gen.vlong(1))], ['lt', lit(gen.vlong(1)), lit(gen.vstr('a'))]]
+        if opt:
+            base, key, t = r.choice(opt)
+            bads += [['eq', ['access', base, S(key)], ['access', base, S(key)]]] * 3
+        bads.append(['eq', ['access', P, S('no_such_attribute')], lit(gen.vlong(1))])
+        BAD = r.choice(bads)
+        body = r.choice([['if', G, BAD, lit(gen.vbool(False))], ['and', G, BAD], ['or', ['not', G], BAD], ['if', ['not', G], lit(gen.vbool(True)), BAD]])
+        return ['policy', S('p'), r.choice(['permit', 'forbid']), ['is', S(env[0])], ['eq', gen.vent('Action', a)], ['is', S(env[2])],
+                ['conds', ['when', body]], ['annots']]
